@@ -4,6 +4,7 @@ pub mod atomic;
 pub mod bitreader;
 pub mod common;
 pub mod dequant;
+pub mod headers;
 pub mod idct;
 pub mod inter;
 pub mod intra;
@@ -27,6 +28,7 @@ pub fn run(id: &str, tier: Tier) -> Option<Report> {
         "C15" => stream::run(tier),
         "C13" => pipeline::run(tier),
         "C05" => atomic::run(tier),
+        "C06" => headers::run(tier),
         "C07" => yuv::run_c07(tier),
         "C08" => yuv::run_c08(tier),
         _ => return None,
@@ -57,6 +59,7 @@ pub fn replay_file(path: &str) -> i32 {
     let case = &doc["case"];
     match case["kind"].as_str().unwrap_or("") {
         "yuv" => yuv::replay(case),
+        "header" => headers::replay(case),
         "split" => atomic::replay(case),
         "stream" => stream::replay(case),
         "decode" => common::replay_decode(case),
